@@ -12,6 +12,9 @@ def und_family(name):
         nodes = [0, 1, 2, 3]
         c = [(0, 1), (1, 2), (0, 1, 2), (2, 3), (3,), (0, 1, 2, 3), (1, 2, 3), (0, 3), (1,), (0, 2)]
         return nodes + [9], c
+    if name == "n4q":
+        nodes, c = und_family("n4")
+        return nodes, c[:8]
     if name == "n5":
         nodes = [0, 1, 2, 3, 4]
         c = [(0, 1), (1, 2, 3), (0, 1, 2, 3, 4), (3, 4), (2,), (0, 2, 4), (1, 2), (0, 1, 2, 3), (1, 2, 3, 4), (4,),
@@ -162,7 +165,7 @@ def build(spec):
 def obligations(tier, seed):
     out = []
     q = tier == "quick"
-    und = [("n4", 3, False)] if q else [("n4", 3, True), ("n5", 5, False), ("str", 2, False)]
+    und = [("n4q", 3, False)] if q else [("n4", 3, True), ("n5", 5, False), ("str", 2, False)]
     for cname, nfix, rev in und:
         for fixed in itertools.product([0, 1], repeat=nfix):
             for what in ("bipartite", "clique", "simplicial"):
@@ -170,7 +173,7 @@ def obligations(tier, seed):
             for dist in ("intersection", "jaccard"):
                 out.append({"family": "line", "cands": cname, "fixed": list(fixed), "what": "line", "distance": dist,
                             "reverse": rev})
-    for cname, nfix in ([("n4", 4)] if q else [("n4", 4), ("n5", 6)]):
+    for cname, nfix in ([("n4q", 3)] if q else [("n4", 4), ("n5", 6)]):
         for fixed in itertools.product([0, 1], repeat=nfix):
             for dist in ("intersection", "jaccard"):
                 out.append({"family": "dline", "cands": cname, "fixed": list(fixed), "what": "dline", "distance": dist})
@@ -187,10 +190,10 @@ def budget(tier):
 
 META = {
     "bounds": {
-        "quick": "Hypergraph on 4 nodes + isolated node: every sub-family of 10 candidates of sizes 1-4; threshold s an "
+        "quick": "Hypergraph on 4 nodes + isolated node: every sub-family of 8 candidates of sizes 1-4; threshold s an "
                  "unbounded symbolic integer >= 1 (intersection) or symbolic real in (0,1] (Jaccard); weighted and "
-                 "keep_isolated symbolic Booleans; DirectedHypergraph: every sub-family of 12 candidates",
-        "thorough": "reversed insertion/listing order, a 12-candidate family on 5 nodes with sizes 1-5, string labels, a "
+                 "keep_isolated symbolic Booleans; DirectedHypergraph: every sub-family of 9 candidates",
+        "thorough": "10 (undirected) / 12 (directed) candidates on 4 nodes, reversed insertion/listing order, a 12-candidate family on 5 nodes with sizes 1-5, string labels, a "
                     "14-candidate directed family",
     },
     "stand_ins": [],
